@@ -67,6 +67,9 @@ DIRECTED = [
 ]
 
 
+MAX_RUNS = 4000    # LINE_MAX_RUNS of harness/mpi/pshared.c
+
+
 def config_of(rng, i):
     thr = G.THRESHOLDS[i % len(G.THRESHOLDS)] if i % 3 else rng.choice(G.THRESHOLDS)
     B = rng.choice([4096, 4096, 8192, 8192, 65536, 1 << 20])
@@ -143,7 +146,11 @@ def execute(ctx, exe, tmpd, tag, conf, cases, timeout=600):
                 scls = {k: list(v) for k, v in scls.items()}
                 a, b = scls["O"][0]
                 scls["O"][0] = (a + 1, b)
-        verdicts, ncopy, nkeep = O.judge(c, rcls, scls)
+        rcover = O.covered(rcls) if rn > MAX_RUNS else None     # dump truncated by the harness: judge the described prefix only
+        scover = O.covered(scls) if sn > MAX_RUNS else None
+        verdicts, ncopy, nkeep = O.judge(c, rcls, scls, rcover, scover)
+        if (rcover is not None or scover is not None) and not verdicts:
+            ctx.inconclusive("dump truncated without a violation in the described prefix", w)
         ctx.count("bytes.must_be_copied", ncopy)
         ctx.count("bytes.must_be_kept", nkeep)
         ctx.count("bytes.seen_copied", O.total(O.inter(O.required(c)[0], rcls.get("S", []))))
